@@ -26,3 +26,34 @@ Theorem c13_no_metadata_same : forall e e' silent s,
   same_but_cols e e' -> analyze e silent s = analyze e' silent s.
 Proof. exact analyze_falsy_provider. Qed.
 Print Assumptions c13_no_metadata_same.
+
+(** "Supplying table metadata never changes table-level lineage", proved on the core fragment of Lemma A for an
+    ARBITRARY provider (any tables, any column lists - no well-formedness of the catalog is needed), any trivia,
+    statements of any size (Tree/LemmaAMeta.v).  Outside the fragment the clause is refuted in general
+    ([c13_refuted_drop] above: DROP with metadata). *)
+From SV Require Import Tree.Render Tree.LemmaA Tree.LemmaAProofs Tree.LemmaAMeta.
+
+Theorem c13_metadata_never_changes_tables_on_core : forall noise e p s,
+  noise_ok noise = true -> env_ok_md e = true -> stmt_ok s = true -> sshape s = true ->
+  stmt_reads (analyze (with_provider e p) false (r_stmt noise s)) = stmt_reads (analyze e false (r_stmt noise s)) /\
+  stmt_writes (analyze (with_provider e p) false (r_stmt noise s)) = stmt_writes (analyze e false (r_stmt noise s)).
+Proof.
+  intros noise e p s Hn He Hs Hq.
+  destruct (metadata_never_changes_tables noise e (with_provider e p) s eq_refl eq_refl eq_refl eq_refl Hn He Hs Hq) as [R W].
+  split; symmetry; assumption.
+Qed.
+Print Assumptions c13_metadata_never_changes_tables_on_core.
+
+(** ... and the table lineage is the specified one, and the analysis does not fail, whatever the catalog says *)
+Theorem c13_exact_tables_any_provider : forall noise e s,
+  noise_ok noise = true -> env_ok_md e = true -> stmt_ok s = true -> sshape s = true ->
+  stmt_reads (analyze e false (r_stmt noise s)) = sort_strings (spec_reads (e_cfg e) s) /\
+  stmt_writes (analyze e false (r_stmt noise s)) = sort_strings (spec_writes (e_cfg e) s).
+Proof. exact lemma_A_tables_any_provider. Qed.
+Print Assumptions c13_exact_tables_any_provider.
+
+Theorem c13_analysis_succeeds_any_provider : forall noise e s,
+  noise_ok noise = true -> env_ok_md e = true -> stmt_ok s = true -> sshape s = true ->
+  exists g, analyze e false (r_stmt noise s) = Ok g.
+Proof. intros noise e s Hn He Hs Hq. destruct (analysis_succeeds_any_provider noise e s Hn He Hs Hq) as [g [H _]]. exists g. exact H. Qed.
+Print Assumptions c13_analysis_succeeds_any_provider.
